@@ -48,6 +48,9 @@ CHECKS = {
     'C07': dict(category='exploration', technique='exhaustive enumeration of einsum signatures (up to renaming) x operand sparsity patterns and storage layouts x value deviations x 4 semirings x grad on/off against brute-force loops; pointer validation for the Viterbi variant',
                 text='Every einsum signature below the bound (incl. indices repeated inside an operand, every ordered output subset, size-1 and size-0 indices, product-split axes) is run through the real einsum for every combination of operand patterns (dense, permuted, stride-0 on last/first/all axes, diagonal, one-hot, offset, non-zero default, product split) in all four semirings with and without requires_grad, and compared with brute-force loops over all index values (0*inf=0); log_viterbi_einsum_forward must return the maximum and in-range pointers attaining it; mv/mm and the empty operand list are covered.',
                 note='Dense operands come from to_dense() (C06). Pointer variant judged without +inf entries. Bounds in evidence.', design='3/C07'),
+    'C08': dict(category='exploration', technique='exhaustive sweeps of whole floating-point carriers (all float16 and bfloat16 values; thorough: all 2^32 float32 values and all float16 pairs) through the unary and pair laws, all triples over boundary alphabets for float32/float64, all Bool values, against closed forms and exact arithmetic',
+                text='Every value of the 16-bit carriers (thorough: every float32 bit pattern) is pushed through star, the identity / annihilation / infinity laws, sub(x,x)+x, add_/sum and commutativity in the Real, Log and Viterbi semirings and compared with float64 closed forms; associativity, distributivity and sub(x,y)+y=x are checked on all triples/pairs of a 15-value boundary alphabet per dtype against exact rational or 60-digit arithmetic; Bool is checked completely; from_int on 0..8; add/mul/sub on every same-typed pair of patterned operands must equal the dense result.',
+                note='float64 cannot be swept. Triples whose exact intermediates overflow/underflow the dtype are skipped and counted. Log/Viterbi tolerances are relative to the largest magnitude involved (values are logarithms).', design='3/C08'),
 }
 
 ALL = ['C%02d' % i for i in range(1, 21)]
